@@ -45,6 +45,12 @@ def spec (op impl : String) : String :=
   | ["mul", p, k] => match ecdhRaw (h p) (h k) with
     | some b => "ok " ++ hexOf b
     | none => "nil"
+  | ["fnorm", a, _, b] => "ok " ++ hexOf (toBE32 ((ofBE (h b) % P + (P - ofBE (h a) % P)) % P))
+  | ["fmul", a, b, k] => "ok " ++ hexOf (toBE32 (ofBE (h a) % P * (ofBE (h b) % P) % P * k.toNat! % P))
+  | ["finv", a] => "ok " ++ hexOf (toBE32 (invMod (ofBE (h a) % P) P))
+  | ["ptadd", p1, p2] => match parsePub (h p1), parsePub (h p2) with
+    | some A, some B => (match add A B with | .inf => "inf" | q => "ok " ++ hexOf (compress q))
+    | _, _ => "badpub"
   | ["rawsign", d, z, k] => match sign (ofBE (h d)) (ofBE (h z)) (ofBE (h k)) with
     | some sg => "ok " ++ hexOf (sigBytes sg) ++ " " ++ toString sg.recid
     | none => "fail"
